@@ -48,6 +48,11 @@ static trl_which_t classify_standard(const vnacal_new_measurement_t *vnmp,
     vnacal_new_parameter_t **s = vnmp->vnm_s_matrix;
 
     *unknown_index = -1;
+    for (int i = 0; i < 4; ++i) {	/* partial S matrix (e.g. single reflect) */
+	if (s[i] == NULL) {
+	    return TRL_NONE;
+	}
+    }
     vnprp_one = _vnacal_get_parameter(vcp, VNACAL_ONE);
     assert(vnprp_one != NULL);
     if (s[1]->vnpr_parameter == vnprp_one) {
